@@ -256,6 +256,20 @@ def _nb_worker(prog):
 # request sequences on the real cache (compiler stubbed)
 # ---------------------------------------------------------------------------------------------------
 
+# programs of the grammar that ARE shipped forms (same terms, same declarations): for these a request is answered with
+# the shipped class from the pre-seeded cache, which is the right assembler (its semantics are decided by C01, its
+# metadata by predefined_problems below).  Any other form that is served a shipped class has been given a wrong assembler.
+PREDEFINED_OK = {}
+for _d in (2, 3):
+    PREDEFINED_OK[("bilin:%dD:w*w" % _d, False)] = "MassAssembler%dD" % _d
+    PREDEFINED_OK[("func:%dD:f*v" % _d, False)] = "L2FunctionalAssembler%dD" % _d
+    PREDEFINED_OK[("vecbf:%dD:(%d,%d):divdiv" % (_d, _d, _d), False)] = "DivDivAssembler%dD" % _d
+
+
+def _predefined_ok(prog, od, asm):
+    return PREDEFINED_OK.get((prog.get("tag"), bool(od))) == getattr(asm, "__name__", None)
+
+
 class _StubModule:
     def __init__(self, src):
         self.src = src
@@ -298,6 +312,8 @@ def sequence_problems(case):
                     asm = C.compile_vform(vgen.build_vform(prog), on_demand=od)
                     got = getattr(asm, "src", None)
                     if got is None:
+                        if _predefined_ok(prog, od, asm):
+                            continue
                         probs.append(("cache:predefined-substituted", "request for %s returned the predefined class %s"
                                       % (prog["tag"], getattr(asm, "__name__", asm))))
                         break
@@ -370,8 +386,10 @@ def extend_problems(case):
                 asm = C.compile_vform(vf, on_demand=od)
                 got = getattr(asm, "src", None)
                 if got is None:
-                    probs.append(("cache:hash-then-add", "%s (%s): the form extended after hash() was served the predefined class %s"
-                                  % (prog["tag"], order, getattr(asm, "__name__", asm))))
+                    if which == 1 and _predefined_ok(prog, od, asm):
+                        continue
+                    probs.append(("cache:hash-then-add", "%s (%s): the %s form was served the predefined class %s"
+                                  % (prog["tag"], order, "extended" if which == 2 else "short", getattr(asm, "__name__", asm))))
                     break
                 j = int(got.split()[1])
                 if j != which:
@@ -544,7 +562,9 @@ def run(ctx):
         if len(forms) >= 2:
             scases.append({"part": "seq", "forms": forms, "maxlen": 3 if len(forms) <= 6 else 2})
     if ctx.tier == "quick":
-        scases = scases[::3]
+        # every third neighbourhood, and always the neighbourhoods of the shipped forms (pre-seeded cache entries)
+        shipped = {t for (t, _od) in PREDEFINED_OK}
+        scases = [c for k, c in enumerate(scases) if k % 3 == 0 or c["forms"][0][0].get("tag") in shipped]
     for case, (nseq, probs) in zip(scases, par.pmap(_seq_worker, scases, min_parallel=8)):
         out.traces += nseq
         out.transitions += nseq
@@ -552,7 +572,7 @@ def run(ctx):
         for key, msg in probs:
             out.add_violation(key, msg, case)
     ecases = [{"part": "extend", "prog": b, "on_demand": od} for k, b in enumerate(bases) for od in (False, True)
-              if ctx.tier == "thorough" or k % 2 == 0]
+              if ctx.tier == "thorough" or k % 2 == 0 or b.get("tag") in {t for (t, _od) in PREDEFINED_OK}]
     for case, (n, probs) in zip(ecases, par.pmap(_ext_worker, ecases, min_parallel=8)):
         out.traces += n
         out.transitions += n
